@@ -273,11 +273,7 @@ Qed.
 Definition askip (search : loc) (query : str) (cs : list str) (c : astmt) : bool :=
   negb (oloc_eqb (stmt_loc c) search) &&
   match c with
-  | AFunc _ _ _ args _ _ _ =>
-    match cs with
-    | [] => match find_arg_named query 0 (aar_args args) with None => true | Some _ => false end
-    | _ => false
-    end
+  | AFunc _ _ n _ _ _ _ => match cs with [] => true | _ => negb (str_eqb n query) end
   | AAnnAssign _ _ t _ _ => match name_id t with Some i => negb (str_eqb i query) | None => true end
   | AClass _ _ n _ _ _ => negb (str_eqb n query)
   | _ => true
@@ -296,9 +292,7 @@ Proof.
   unfold askip in Hc. apply andb_true_iff in Hc. destruct Hc as [Hloc Hkind].
   apply negb_true_iff in Hloc. rewrite Hloc.
   destruct c; try (apply IH; assumption).
-  - destruct cs as [|c0 cs0]; [|discriminate].
-    destruct (find_arg_named query 0 (aar_args args)) eqn:E; [discriminate|].
-    apply IH; assumption.
+  - destruct cs as [|c0 cs0]; [apply IH; assumption|]. rewrite Hkind. apply IH; assumption.
   - destruct (str_eqb name query) eqn:E; [discriminate|]. apply IH; assumption.
   - destruct (name_id target) as [i|] eqn:E.
     + destruct (str_eqb i query) eqn:E2; [discriminate|]. apply IH; assumption.
@@ -320,15 +314,22 @@ Proof.
   rewrite H by (left; reflexivity). simpl. apply IH. intros c0 q Hin. apply H. right. assumption.
 Qed.
 
-(* what the loop variable holds after a whole body was passed over *)
+(* what the loop variable holds after a whole body was passed over: its last statement *)
+Lemma last_of_app1 : forall l x last, last_of (l ++ [x]) last = Some x.
+Proof. induction l as [|y r IH]; intros x last; simpl; [reflexivity | apply IH]. Qed.
+
 Lemma last_of_annotate_body : forall pname p b j last,
-    last_of (annotate_body pname p j b) last = last
-    \/ exists c q, In c b /\ last_of (annotate_body pname p j b) last = Some (annotate_stmt pname q c).
+    last_of (annotate_body pname p j b) last
+    = match rev b with
+      | [] => last
+      | c :: _ => Some (annotate_stmt pname (p ++ [j + (List.length b - 1)]) c)
+      end.
 Proof.
-  intros pname p b. induction b as [|c r IH]; intros j last; simpl; [left; reflexivity|].
-  destruct (IH (S j) (Some (annotate_stmt pname (p ++ [j]) c))) as [H|[c0 [q [Hin H]]]].
-  - right. exists c, (p ++ [j]). split; [left; reflexivity | assumption].
-  - right. exists c0, q. split; [right; assumption | assumption].
+  intros pname p b j last. destruct (rev b) as [|c r] eqn:E.
+  - apply (f_equal (@rev stmt)) in E. rewrite rev_involutive in E. subst. reflexivity.
+  - apply (f_equal (@rev stmt)) in E. rewrite rev_involutive in E. simpl in E. subst b.
+    rewrite annotate_body_app. simpl. rewrite last_of_app1. rewrite app_length. simpl.
+    replace (List.length (rev r) + 1 - 1) with (List.length (rev r)) by lia. reflexivity.
 Qed.
 
 (* ------------------------------------------------------------------ members, locations, arguments *)
@@ -411,18 +412,21 @@ Lemma find_arg_annot_some : forall y l floc p k idx i,
     exists k' a i' a',
       find_plain_arg y k l = Some (k', a)
       /\ find_arg_named y i (annotate_args floc p k idx l) = Some (i', a')
-      /\ aa_id a' = p ++ [k'] /\ erase_arg a' = a.
+      /\ aa_id a' = p ++ [k'] /\ erase_arg a' = a /\ i <= i' < i + List.length l.
 Proof.
   intros y l. induction l as [|a r IH]; intros floc p k idx i H; simpl in *; [discriminate|].
   destruct (str_eqb (a_name a) y) eqn:E.
-  - exists k, a, i. eexists. repeat split. destruct a; reflexivity.
-  - simpl in H. destruct (IH floc p (S k) (idx + 1)%Z (S i) H) as [k' [a0 [i' [a' [H1 [H2 [H3 H4]]]]]]].
-    exists k', a0, i', a'. repeat split; assumption.
+  - exists k, a, i. eexists. repeat split; try lia. destruct a; reflexivity.
+  - simpl in H. destruct (IH floc p (S k) (idx + 1)%Z (S i) H) as [k' [a0 [i' [a' [H1 [H2 [H3 [H4 H5]]]]]]]].
+    exists k', a0, i', a'. repeat split; try assumption; lia.
 Qed.
 
 Lemma nth_error_map_DExpr : forall l i,
     nth_error (map DExpr l) i = option_map DExpr (nth_error l i).
 Proof. intros l i. apply nth_error_map. Qed.
+
+Lemma with_default_view : forall a e, node_view (NArg (with_default a e)) = node_view (NArg a).
+Proof. intros a e. reflexivity. Qed.
 
 (* ------------------------------------------------------------------ resolve: shape lemmas *)
 Lemma resolve_body_split : forall seg q' p b j,
@@ -457,21 +461,13 @@ Proof. intros. simpl. apply resolve_first_member. Qed.
 
 (* ------------------------------------------------------------------ the last step of a lookup *)
 Lemma askip_leaf : forall y pname p c,
-    assign_ok c = true -> is_member y c = false -> func_has_posarg y c = false ->
+    assign_ok c = true -> is_member y c = false ->
     askip (pname ++ [y]) y [] (annotate_stmt pname p c) = true.
 Proof.
-  intros y pname p c Hok Hm Hf. unfold askip. rewrite stmt_loc_annotate, nonmember_loc by assumption. simpl.
+  intros y pname p c Hok Hm. unfold askip. rewrite stmt_loc_annotate, nonmember_loc by assumption. simpl.
   destruct c; simpl in *; try reflexivity.
-  - rewrite find_arg_annot_none by assumption. reflexivity.
   - rewrite Hm. reflexivity.
   - destruct (name_id target); [rewrite Hm|]; reflexivity.
-Qed.
-
-Lemma before_member_cons_nonmember : forall y c r,
-    is_member y c = false -> before_member y (c :: r) = c :: before_member y r.
-Proof.
-  intros y c r H. unfold before_member. simpl. rewrite H.
-  destruct (split_member y r) as [[[pre t] post]|]; reflexivity.
 Qed.
 
 Lemma forallb_In : forall (A : Type) (f : A -> bool) l x, forallb f l = true -> In x l -> f x = true.
@@ -484,12 +480,11 @@ Proof.
 Qed.
 
 Lemma leaf_found : forall pname p j b y pre t post cur last log,
-    split_member y b = Some (pre, t, post) ->
-    forallb assign_ok b = true -> existsb (func_has_posarg y) pre = false ->
+    split_member y b = Some (pre, t, post) -> forallb assign_ok b = true ->
     find_for (pname ++ [y]) (annotate_body pname p j b) y [] cur last log
     = FReturn (NStmt (annotate_stmt pname (p ++ [j + List.length pre]) t)) log.
 Proof.
-  intros pname p j b y pre t post cur last log Hs Hok Hf.
+  intros pname p j b y pre t post cur last log Hs Hok.
   destruct (split_member_some _ _ _ _ _ Hs) as [Hb [Hmt Hpre]]. subst b.
   rewrite annotate_body_app, find_for_skip.
   - simpl. rewrite stmt_loc_annotate, (member_loc y); [|apply (forallb_In _ _ _ t Hok); apply in_or_app; right; left; reflexivity|assumption].
@@ -497,82 +492,45 @@ Proof.
   - apply forallb_annotate_body. intros c q Hin. apply askip_leaf.
     + apply (forallb_In _ _ _ c Hok). apply in_or_app. left. assumption.
     + apply negb_true_iff. apply (forallb_In _ _ _ c Hpre). assumption.
-    + apply (existsb_In_false _ _ _ c Hf). assumption.
 Qed.
 
 Lemma leaf_notfound : forall pname p j b y cur last log,
-    split_member y b = None ->
-    forallb assign_ok b = true -> existsb (func_has_posarg y) b = false ->
+    split_member y b = None -> forallb assign_ok b = true ->
     find_for (pname ++ [y]) (annotate_body pname p j b) y [] cur last log
     = FDone [] cur (last_of (annotate_body pname p j b) last) log.
 Proof.
-  intros pname p j b y cur last log Hs Hok Hf. apply find_for_skip_all.
+  intros pname p j b y cur last log Hs Hok. apply find_for_skip_all.
   apply forallb_annotate_body. intros c q Hin. apply askip_leaf.
   - apply (forallb_In _ _ _ c Hok). assumption.
   - apply negb_true_iff. apply (forallb_In _ _ _ c (split_member_none _ _ Hs)). assumption.
-  - apply (existsb_In_false _ _ _ c Hf). assumption.
 Qed.
 
 (* ------------------------------------------------------------------ walking past the head of a longer path *)
-Lemma nonmember_kinds : forall x c, is_member x c = false -> annassign_named x c = false /\ class_named x c = false.
-Proof. intros x c H. destruct c; simpl in *; split; try reflexivity; assumption. Qed.
+Lemma nonmember_kinds : forall x c, is_member x c = false ->
+                                     func_named x c = false /\ annassign_named x c = false /\ class_named x c = false.
+Proof. intros x c H. destruct c; simpl in *; repeat split; try reflexivity; assumption. Qed.
 
 Lemma askip_head : forall search x cs pname p c,
     (forall n, search <> pname ++ [n]) -> cs <> [] ->
-    is_func c = false -> annassign_named x c = false -> class_named x c = false ->
+    func_named x c = false -> annassign_named x c = false -> class_named x c = false ->
     askip search x cs (annotate_stmt pname p c) = true.
 Proof.
   intros search x cs pname p c Hs Hcs Hf Ha Hc. unfold askip. rewrite stmt_loc_annotate, loc_never by assumption. simpl.
-  destruct c; simpl in *; try reflexivity; try discriminate.
+  destruct c; simpl in *; try reflexivity.
+  - destruct cs; [contradiction|]. rewrite Hf. reflexivity.
   - rewrite Hc. reflexivity.
   - destruct (name_id target); [rewrite Ha|]; reflexivity.
 Qed.
 
 Lemma askip_fall : forall search z pname p c,
     (forall n, search <> pname ++ [n]) ->
-    func_has_posarg z c = false -> annassign_named z c = false -> class_named z c = false ->
+    annassign_named z c = false -> class_named z c = false ->
     askip search z [] (annotate_stmt pname p c) = true.
 Proof.
-  intros search z pname p c Hs Hf Ha Hc. unfold askip. rewrite stmt_loc_annotate, loc_never by assumption. simpl.
+  intros search z pname p c Hs Ha Hc. unfold askip. rewrite stmt_loc_annotate, loc_never by assumption. simpl.
   destruct c; simpl in *; try reflexivity.
-  - rewrite find_arg_annot_none by assumption. reflexivity.
   - rewrite Hc. reflexivity.
   - destruct (name_id target); [rewrite Ha|]; reflexivity.
-Qed.
-
-(* ------------------------------------------------------------------ a function reached with one segment left *)
-Lemma func_arg_found : forall search pname p n args body d r rest query z cur last log,
-    (forall k, search <> pname ++ [k]) ->
-    has_arg_named z (ar_args args) = true ->
-    exists a' log',
-      find_for search (annotate_stmt pname p (SFunc n args body d r) :: rest) query [z] cur last log
-      = FReturn (NArg a') log'
-      /\ Some (node_view (NArg a')) = resolve_arg z p args.
-Proof.
-  intros search pname p n args body d r rest query z cur last log Hs Ha.
-  destruct (find_arg_annot_some z (ar_args args) (pname ++ [n]) (p ++ [0]) 0 (args_start (ar_args args)) 0 Ha)
-    as [k' [a [i' [a' [H1 [H2 [H3 H4]]]]]]].
-  assert (Hloc : loc_eqb (pname ++ [n]) search = false).
-  { apply loc_eqb_neq. intros E. apply (Hs n). symmetry. assumption. }
-  simpl find_for. rewrite Hloc. rewrite H2.
-  rewrite nth_error_map_DExpr. unfold resolve_arg. rewrite H1.
-  destruct (nth_error (ar_defaults args) i') as [e|]; simpl.
-  - eexists. eexists. split; [reflexivity|]. simpl. rewrite H3. rewrite <- app_assoc. simpl.
-    destruct a' as [ai al ax ad an aan]. simpl in *. unfold erase_arg in *. simpl in *. rewrite H4. reflexivity.
-  - eexists. eexists. split; [reflexivity|]. simpl. rewrite H3. rewrite <- app_assoc. simpl. rewrite H4. reflexivity.
-Qed.
-
-Lemma func_arg_notfound : forall search pname p n args body d r rest query z cur last log,
-    (forall k, search <> pname ++ [k]) ->
-    has_arg_named z (ar_args args) = false ->
-    find_for search (annotate_stmt pname p (SFunc n args body d r) :: rest) query [z] cur last log
-    = find_for search rest z [] cur (Some (annotate_stmt pname p (SFunc n args body d r))) log.
-Proof.
-  intros search pname p n args body d r rest query z cur last log Hs Ha.
-  assert (Hloc : loc_eqb (pname ++ [n]) search = false).
-  { apply loc_eqb_neq. intros E. apply (Hs n). symmetry. assumption. }
-  simpl find_for. rewrite Hloc.
-  rewrite find_arg_annot_none by assumption. reflexivity.
 Qed.
 
 (* a class whose name is the current segment: the cursor moves into its body *)
@@ -595,6 +553,7 @@ Proof. reflexivity. Qed.
 Definition step_result (fuel : nat) (search : loc) (r : for_res) : outcome (option anode * dlog) :=
   match r with
   | FReturn n log' => Ok (Some n, log')
+  | FNone log' => Ok (None, log')
   | FErr e => Err e
   | FDone cs2 cur' child' log' => find_while fuel search child' cur' cs2 log'
   end.
@@ -615,6 +574,73 @@ Lemma find_while_step_name : forall fuel search c kids query log,
     = step_result fuel search (find_for search kids query [] (CList kids) (Some c) log).
 Proof. intros fuel search c kids query log H. simpl. rewrite H. reflexivity. Qed.
 
+(* ------------------------------------------------------------------ the function named by the current segment *)
+(* exactly one segment left: the argument (positional, else keyword-only) or None; the loop ends either way *)
+Lemma func_last_segment : forall search pname p n args body d r rest z cur last log fuel,
+    (forall k, search <> pname ++ [k]) ->
+    List.length (ar_kw_defaults args) = List.length (ar_kwonly args) ->
+    exists res log',
+      step_result fuel search
+                  (find_for search (annotate_stmt pname p (SFunc n args body d r) :: rest) n [z] cur last log)
+      = Ok (res, log')
+      /\ option_map node_view res = resolve_arg z p args.
+Proof.
+  intros search pname p n args body d r rest z cur last log fuel Hs Hkw.
+  assert (Hloc : loc_eqb (pname ++ [n]) search = false).
+  { apply loc_eqb_neq. intros E. apply (Hs n). symmetry. assumption. }
+  simpl find_for. rewrite Hloc, str_eqb_refl. simpl negb. cbv iota.
+  unfold resolve_arg.
+  destruct (has_arg_named z (ar_args args)) eqn:Ha.
+  - destruct (find_arg_annot_some z (ar_args args) (pname ++ [n]) (p ++ [0]) 0 (args_start (ar_args args)) 0 Ha)
+      as [k' [a [i' [a' [H1 [H2 [H3 [H4 _]]]]]]]].
+    rewrite H2, nth_error_map_DExpr, H1.
+    destruct (nth_error (ar_defaults args) i') as [e|]; simpl.
+    + eexists. eexists. split; [reflexivity|]. simpl. rewrite H3, <- app_assoc. simpl.
+      unfold erase_arg in *. simpl. rewrite H4. reflexivity.
+    + eexists. eexists. split; [reflexivity|]. simpl. rewrite H3, <- app_assoc. simpl. rewrite H4. reflexivity.
+  - rewrite find_arg_annot_none by assumption. rewrite find_plain_none by assumption.
+    destruct (has_arg_named z (ar_kwonly args)) eqn:Hk.
+    + destruct (find_arg_annot_some z (ar_kwonly args) (pname ++ [n]) (p ++ [1]) 0 0%Z 0 Hk)
+        as [k' [a [i' [a' [H1 [H2 [H3 [H4 H5]]]]]]]].
+      cbn [aar_kwonly annotate_arguments aar_kw_defaults]. rewrite H2, H1.
+      destruct (nth_error (ar_kw_defaults args) i') as [[e|]|] eqn:En; simpl.
+      * eexists. eexists. split; [reflexivity|]. simpl. rewrite H3, <- app_assoc. simpl.
+        unfold erase_arg in *. simpl. rewrite H4. reflexivity.
+      * eexists. eexists. split; [reflexivity|]. simpl. rewrite H3, <- app_assoc. simpl. rewrite H4. reflexivity.
+      * exfalso. apply nth_error_None in En. lia.
+    + cbn [aar_kwonly annotate_arguments]. rewrite find_arg_annot_none by assumption.
+      rewrite find_plain_none by assumption.
+      exists None. eexists. split; reflexivity.
+Qed.
+
+(* two or more segments left: None, whatever the arguments *)
+Lemma func_more_segments : forall search pname p n args body d r rest z w more cur last log fuel,
+    (forall k, search <> pname ++ [k]) ->
+    List.length (ar_kw_defaults args) = List.length (ar_kwonly args) ->
+    exists log',
+      step_result fuel search
+                  (find_for search (annotate_stmt pname p (SFunc n args body d r) :: rest) n (z :: w :: more) cur last log)
+      = Ok (None, log').
+Proof.
+  intros search pname p n args body d r rest z w more cur last log fuel Hs Hkw.
+  assert (Hloc : loc_eqb (pname ++ [n]) search = false).
+  { apply loc_eqb_neq. intros E. apply (Hs n). symmetry. assumption. }
+  simpl find_for. rewrite Hloc, str_eqb_refl. simpl negb. cbv iota.
+  destruct (has_arg_named z (ar_args args)) eqn:Ha.
+  - destruct (find_arg_annot_some z (ar_args args) (pname ++ [n]) (p ++ [0]) 0 (args_start (ar_args args)) 0 Ha)
+      as [k' [a [i' [a' [H1 [H2 _]]]]]].
+    rewrite H2, nth_error_map_DExpr.
+    destruct (nth_error (ar_defaults args) i') as [e|]; simpl; eexists; reflexivity.
+  - rewrite find_arg_annot_none by assumption.
+    destruct (has_arg_named z (ar_kwonly args)) eqn:Hk.
+    + destruct (find_arg_annot_some z (ar_kwonly args) (pname ++ [n]) (p ++ [1]) 0 0%Z 0 Hk)
+        as [k' [a [i' [a' [H1 [H2 [_ [_ H5]]]]]]]].
+      cbn [aar_kwonly annotate_arguments aar_kw_defaults]. rewrite H2.
+      destruct (nth_error (ar_kw_defaults args) i') as [[e|]|] eqn:En; simpl; try (eexists; reflexivity).
+      exfalso. apply nth_error_None in En. lia.
+    + cbn [aar_kwonly annotate_arguments]. rewrite find_arg_annot_none by assumption. eexists. reflexivity.
+Qed.
+
 (* from the loop to find_view *)
 Lemma find_view_of_while : forall root q m r log res,
     q <> [] ->
@@ -627,138 +653,99 @@ Proof.
   destruct r as [n|]; simpl in *; [rewrite node_view_apply_dlog|]; subst; reflexivity.
 Qed.
 
-(* ------------------------------------------------------------------ C15, the lookup half: the guarded equality *)
-Lemma leaf_lookup_facts : forall y b,
-    leaf_lookup_class y b = None ->
-    forallb assign_ok b = true /\ existsb (func_has_posarg y) (before_member y b) = false.
+(* ------------------------------------------------------------------ supported: the invariant find_in_ast relies on *)
+Lemma supported_func_kw : forall n args body d r,
+    supported_stmt (SFunc n args body d r) = true ->
+    List.length (ar_kw_defaults args) = List.length (ar_kwonly args).
 Proof.
-  intros y b H. unfold leaf_lookup_class in H.
-  destruct (forallb assign_ok b); simpl in H; [|discriminate].
-  destruct (existsb (func_has_posarg y) (before_member y b)); [discriminate|]. split; reflexivity.
+  intros n args body d r H. simpl in H. apply andb_true_iff in H. destruct H as [H _].
+  apply Nat.eqb_eq. assumption.
 Qed.
 
-Lemma c15_depth1 : forall root m x, leaf_lookup_class x m = None -> find_view_at root [x] m = Ok (resolve_at root [x] m).
+Lemma supported_split : forall x b pre t post,
+    forallb supported_stmt b = true -> split_member x b = Some (pre, t, post) -> supported_stmt t = true.
 Proof.
-  intros root m x H. destruct (leaf_lookup_facts _ _ H) as [Hok Hf].
-  unfold before_member in Hf. unfold resolve_at. rewrite resolve_body_split.
+  intros x b pre t post H Hs. destruct (split_member_some _ _ _ _ _ Hs) as [Hb _]. subst b.
+  apply (forallb_In _ _ _ t H). apply in_or_app. right. left. reflexivity.
+Qed.
+
+(* ------------------------------------------------------------------ C15, the lookup half: the guarded equality *)
+Lemma leaf_lookup_facts : forall b, leaf_lookup_class b = None -> forallb assign_ok b = true.
+Proof.
+  intros b H. unfold leaf_lookup_class in H. destruct (forallb assign_ok b); [reflexivity | discriminate].
+Qed.
+
+Lemma c15_depth1 : forall root m x, leaf_lookup_class m = None ->
+                                    find_view_at root [x] m = Ok (resolve_at root [x] m).
+Proof.
+  intros root m x H. pose proof (leaf_lookup_facts _ H) as Hok.
+  unfold resolve_at. rewrite resolve_body_split.
   destruct (split_member x m) as [[[pre t] post]|] eqn:Hs.
   - apply find_view_of_while with (r := Some (NStmt (annotate_stmt [] (root ++ [List.length pre]) t))) (log := []).
     + discriminate.
     + simpl List.length. rewrite find_while_step_none. unfold annotate_at.
-      pose proof (leaf_found [] root 0 m x pre t post (CList (annotate_body [] root 0 m)) None [] Hs Hok Hf) as L.
+      pose proof (leaf_found [] root 0 m x pre t post (CList (annotate_body [] root 0 m)) None [] Hs Hok) as L.
       simpl in L. rewrite L. reflexivity.
     + simpl. rewrite stmt_id_annotate, erase_annotate. reflexivity.
   - apply find_view_of_while with (r := None) (log := []).
     + discriminate.
     + simpl List.length. rewrite find_while_step_none. unfold annotate_at.
-      pose proof (leaf_notfound [] root 0 m x (CList (annotate_body [] root 0 m)) None [] Hs Hok Hf) as L.
+      pose proof (leaf_notfound [] root 0 m x (CList (annotate_body [] root 0 m)) None [] Hs Hok) as L.
       simpl in L. rewrite L. reflexivity.
     + reflexivity.
 Qed.
 
-Lemma no_func_false : forall l c, existsb is_func l = false -> In c l -> is_func c = false.
-Proof. intros l c H Hin. apply (existsb_In_false _ _ _ c H Hin). Qed.
-
-Lemma length_neq_app1 : forall (A : Type) (search pname : list A),
-    List.length search <> S (List.length pname) -> forall n, search <> pname ++ [n].
-Proof. intros A search pname H n E. subst. rewrite app_length in H. simpl in H. lia. Qed.
-
-(* the statements before the first member called x, none of them a function: all passed over *)
+(* the statements before the first member called x: all passed over, functions included *)
 Lemma head_pre_skipped : forall search x cs pname p j pre,
     (forall n, search <> pname ++ [n]) -> cs <> [] ->
-    existsb is_func pre = false -> forallb (fun c => negb (is_member x c)) pre = true ->
+    forallb (fun c => negb (is_member x c)) pre = true ->
     forallb (askip search x cs) (annotate_body pname p j pre) = true.
 Proof.
-  intros search x cs pname p j pre Hs Hcs Hf Hm. apply forallb_annotate_body. intros c q Hin.
+  intros search x cs pname p j pre Hs Hcs Hm. apply forallb_annotate_body. intros c q Hin.
   assert (Hmc : is_member x c = false) by (apply negb_true_iff; apply (forallb_In _ _ _ c Hm Hin)).
-  destruct (nonmember_kinds _ _ Hmc) as [Ha Hc].
-  apply askip_head; try assumption. apply (no_func_false _ _ Hf Hin).
+  destruct (nonmember_kinds _ _ Hmc) as [Hf [Ha Hc]].
+  apply askip_head; assumption.
 Qed.
 
-(* the statements after a function whose argument was not found: nothing for the leftover segment to stumble on *)
-Lemma post_skipped : forall search z pname p j post,
-    (forall n, search <> pname ++ [n]) ->
-    existsb (fun c => func_has_posarg z c || annassign_named z c || class_named z c) post = false ->
-    forallb (askip search z []) (annotate_body pname p j post) = true.
-Proof.
-  intros search z pname p j post Hs H. apply forallb_annotate_body. intros c q Hin.
-  pose proof (existsb_In_false _ _ _ c H Hin) as Hc. simpl in Hc.
-  apply orb_false_iff in Hc. destruct Hc as [Hc H3]. apply orb_false_iff in Hc. destruct Hc as [H1 H2].
-  apply askip_fall; assumption.
-Qed.
-
-Lemma arg_lookup_facts : forall z args post,
-    arg_lookup_class z args post = None ->
-    has_arg_named z (ar_args args) = true
-    \/ (has_arg_named z (ar_args args) = false /\ has_arg_named z (ar_kwonly args) = false
-        /\ existsb (fun c => func_has_posarg z c || annassign_named z c || class_named z c) post = false).
-Proof.
-  intros z args post H. unfold arg_lookup_class in H.
-  destruct (has_arg_named z (ar_args args)); [left; reflexivity|].
-  destruct (has_arg_named z (ar_kwonly args)); [discriminate|].
-  destruct (existsb _ post); [discriminate|]. right. repeat split; reflexivity.
-Qed.
-
-(* a function reached with exactly one segment left, inside a scope whose body is pre ++ f :: post *)
-Lemma func_last_segment : forall search pname p j (pre : list stmt) n args body d r post query z cur last log fuel,
-    (forall k, search <> pname ++ [k]) ->
-    arg_lookup_class z args post = None ->
-    exists res log',
-      step_result (S fuel) search
-                  (find_for search
-                            (annotate_stmt pname (p ++ [j + List.length pre]) (SFunc n args body d r)
-                                           :: annotate_body pname p (S (j + List.length pre)) post)
-                            query [z] cur last log)
-      = Ok (res, log')
-      /\ option_map node_view res = resolve_arg z (p ++ [j + List.length pre]) args.
-Proof.
-  intros search pname p j pre n args body d r post query z cur last log fuel Hs H.
-  destruct (arg_lookup_facts _ _ _ H) as [Ha|[Ha [Hk Hp]]].
-  - destruct (func_arg_found search pname (p ++ [j + List.length pre]) n args body d r
-                             (annotate_body pname p (S (j + List.length pre)) post) query z cur last log Hs Ha)
-      as [a' [log' [H1 H2]]].
-    rewrite H1. exists (Some (NArg a')), log'. split; [reflexivity | exact H2].
-  - rewrite func_arg_notfound by assumption.
-    rewrite find_for_skip_all by (apply post_skipped; assumption).
-    exists None. eexists. split; [reflexivity|].
-    unfold resolve_arg. rewrite !find_plain_none by assumption. reflexivity.
-Qed.
-
-Lemma resolve_stmt_func1 : forall z p n args body d r,
-    resolve_stmt [z] p (SFunc n args body d r) = resolve_arg z p args.
-Proof. reflexivity. Qed.
-
-(* walking a body up to its first member called x, when no function precedes it *)
 Lemma walk_to_member : forall search x cs pname p j b pre t post cur last log,
     split_member x b = Some (pre, t, post) ->
-    (forall n, search <> pname ++ [n]) -> cs <> [] -> existsb is_func pre = false ->
+    (forall n, search <> pname ++ [n]) -> cs <> [] ->
     find_for search (annotate_body pname p j b) x cs cur last log
     = find_for search
                (annotate_stmt pname (p ++ [j + List.length pre]) t
                               :: annotate_body pname p (S (j + List.length pre)) post)
                x cs cur (last_of (annotate_body pname p j pre) last) log.
 Proof.
-  intros search x cs pname p j b pre t post cur last log Hs Hn Hcs Hf.
+  intros search x cs pname p j b pre t post cur last log Hs Hn Hcs.
   destruct (split_member_some _ _ _ _ _ Hs) as [Hm [Hmt Hpre]]. subst b.
   rewrite annotate_body_app, find_for_skip by (apply head_pre_skipped; assumption).
   reflexivity.
 Qed.
 
+Lemma func_member_name : forall x n args body d r, is_member x (SFunc n args body d r) = true -> n = x.
+Proof. intros x n args body d r H. simpl in H. apply str_eqb_eq in H. assumption. Qed.
+
+Lemma class_member_name : forall x n bs body d, is_member x (SClass n bs body d) = true -> n = x.
+Proof. intros x n bs body d H. simpl in H. apply str_eqb_eq in H. assumption. Qed.
+
 Lemma c15_depth2_func : forall root m x y pre n args body d r post,
+    supported m = true ->
     split_member x m = Some (pre, SFunc n args body d r, post) ->
-    existsb is_func pre = false -> arg_lookup_class y args post = None ->
     find_view_at root [x; y] m = Ok (resolve_at root [x; y] m).
 Proof.
-  intros root m x y pre n args body d r post Hs Hf Ha.
+  intros root m x y pre n args body d r post Hsup Hs.
+  destruct (split_member_some _ _ _ _ _ Hs) as [_ [Hmt _]]. apply func_member_name in Hmt. subst n.
+  pose proof (supported_func_kw _ _ _ _ _ (supported_split _ _ _ _ _ Hsup Hs)) as Hkw.
   assert (Hlen : forall k : str, [x; y] <> [] ++ [k]) by (intros k; discriminate).
-  destruct (func_last_segment [x; y] [] root 0 pre n args body d r post x y
-                              (CList (annotate_at root m)) (last_of (annotate_body [] root 0 pre) None) [] 1 Hlen Ha)
+  destruct (func_last_segment [x; y] [] (root ++ [0 + List.length pre]) x args body d r
+                              (annotate_body [] root (S (0 + List.length pre)) post) y
+                              (CList (annotate_at root m)) (last_of (annotate_body [] root 0 pre) None) [] 2 Hlen Hkw)
     as [res [log' [H1 H2]]].
   apply find_view_of_while with (r := res) (log := log').
   - discriminate.
   - simpl List.length. rewrite find_while_step_more.
     set (cur := CList (annotate_at root m)) in *. unfold annotate_at.
-    rewrite (walk_to_member [x; y] x [y] [] root 0 m pre _ post cur None [] Hs Hlen) by (discriminate || assumption).
+    rewrite (walk_to_member [x; y] x [y] [] root 0 m pre _ post cur None [] Hs Hlen) by discriminate.
     exact H1.
   - rewrite H2. unfold resolve_at. rewrite resolve_body_split, Hs. reflexivity.
 Qed.
@@ -766,18 +753,15 @@ Qed.
 Lemma astmt_name_annotate : forall pname p c, astmt_name (annotate_stmt pname p c) = stmt_name c.
 Proof. intros pname p c. destruct c; reflexivity. Qed.
 
-Lemma class_member_name : forall x n bs body d, is_member x (SClass n bs body d) = true -> n = x.
-Proof. intros x n bs body d H. simpl in H. apply str_eqb_eq in H. assumption. Qed.
-
 Lemma c15_depth2_class : forall root m x y pre n bs body d post,
     split_member x m = Some (pre, SClass n bs body d, post) ->
-    existsb is_func pre = false -> str_eqb x y = false -> leaf_lookup_class y body = None ->
+    str_eqb x y = false -> leaf_lookup_class body = None ->
     find_view_at root [x; y] m = Ok (resolve_at root [x; y] m).
 Proof.
-  intros root m x y pre n bs body d post Hs Hf Hxy Hl.
+  intros root m x y pre n bs body d post Hs Hxy Hl.
   destruct (split_member_some _ _ _ _ _ Hs) as [_ [Hmt _]].
   apply class_member_name in Hmt. subst n.
-  destruct (leaf_lookup_facts _ _ Hl) as [Hok Hfb]. unfold before_member in Hfb.
+  pose proof (leaf_lookup_facts _ Hl) as Hok.
   assert (Hlen : forall k : str, [x; y] <> [] ++ [k]) by (intros k; discriminate).
   set (p1 := root ++ [0 + List.length pre]).
   assert (Hres : resolve_at root [x; y] m = resolve_body y [] p1 0 body).
@@ -789,7 +773,7 @@ Proof.
              find_while 3 [x; y] None (CList (annotate_at root m)) [x; y] [] = Ok (res, log')).
   { intros res log' H. rewrite find_while_step_more.
     set (cur := CList (annotate_at root m)). unfold annotate_at.
-    rewrite (walk_to_member [x; y] x [y] [] root 0 m pre _ post cur None [] Hs Hlen) by (discriminate || assumption).
+    rewrite (walk_to_member [x; y] x [y] [] root 0 m pre _ post cur None [] Hs Hlen) by discriminate.
     fold p1. rewrite class_enter by exact Hlen. unfold step_result at 1.
     rewrite find_while_step_name; [exact H|].
     rewrite astmt_name_annotate. simpl. exact Hxy. }
@@ -799,90 +783,115 @@ Proof.
     + discriminate.
     + apply Hwalk.
       pose proof (leaf_found [x] p1 0 body y pre' t' post' (CList (annotate_body [x] p1 0 body))
-                             (Some (annotate_stmt [] p1 (SClass x bs body d))) [] Hs' Hok Hfb) as L.
+                             (Some (annotate_stmt [] p1 (SClass x bs body d))) [] Hs' Hok) as L.
       simpl app in L at 1. rewrite L. reflexivity.
     + simpl option_map. unfold node_view. rewrite stmt_id_annotate, erase_annotate. reflexivity.
   - apply find_view_of_while with (r := None) (log := []).
     + discriminate.
     + apply Hwalk.
       pose proof (leaf_notfound [x] p1 0 body y (CList (annotate_body [x] p1 0 body))
-                                (Some (annotate_stmt [] p1 (SClass x bs body d))) [] Hs' Hok Hfb) as L.
+                                (Some (annotate_stmt [] p1 (SClass x bs body d))) [] Hs' Hok) as L.
       simpl app in L at 1. rewrite L. reflexivity.
     + reflexivity.
 Qed.
 
 Lemma unresolved_head_facts : forall x y m,
     unresolved_head_class x y m = None ->
-    existsb is_func m = false /\ existsb (annassign_named x) m = false /\ existsb (class_named x) m = false
-    /\ existsb (fun c => annassign_named y c || class_named y c) m = false.
+    existsb (fun c => func_named x c || annassign_named x c || class_named x c) m = false
+    /\ existsb (fun c => annassign_named y c || class_named y c) m = false
+    /\ last_func_named y m = false.
 Proof.
   intros x y m H. unfold unresolved_head_class in H.
-  destruct (existsb is_func m); [discriminate|].
-  destruct (existsb (annassign_named x) m); [discriminate|].
-  destruct (existsb (class_named x) m); [discriminate|].
-  destruct (existsb _ m); [discriminate|]. repeat split; reflexivity.
+  destruct (existsb (fun c => func_named x c || annassign_named x c || class_named x c) m); [discriminate|].
+  destruct (existsb (fun c => annassign_named y c || class_named y c) m); simpl in H; [discriminate|].
+  destruct (last_func_named y m); [discriminate|]. repeat split; reflexivity.
 Qed.
-
-Lemma not_func_no_posarg : forall z c, is_func c = false -> func_has_posarg z c = false.
-Proof. intros z c H. destruct c; simpl in *; try reflexivity; discriminate. Qed.
 
 Lemma c15_depth2_unresolved : forall root m x y,
     unresolved_head_class x y m = None -> resolve_at root [x; y] m = None ->
     find_view_at root [x; y] m = Ok (resolve_at root [x; y] m).
 Proof.
   intros root m x y H Hres. rewrite Hres.
-  destruct (unresolved_head_facts _ _ _ H) as [Hf [Hax [Hcx Hy]]].
+  destruct (unresolved_head_facts _ _ _ H) as [Hx [Hy Hlast]].
   assert (Hlen : forall k : str, [x; y] <> [] ++ [k]) by (intros k; discriminate).
   apply find_view_of_while with (r := None) (log := []); [discriminate | | reflexivity].
   simpl List.length. rewrite find_while_step_more.
   set (cur := CList (annotate_at root m)). unfold annotate_at.
   assert (Hskip1 : forallb (askip [x; y] x [y]) (annotate_body [] root 0 m) = true).
-  { apply forallb_annotate_body. intros c q Hin. apply askip_head; try assumption; try discriminate.
-    - apply (existsb_In_false _ _ _ c Hf Hin).
-    - apply (existsb_In_false _ _ _ c Hax Hin).
-    - apply (existsb_In_false _ _ _ c Hcx Hin). }
+  { apply forallb_annotate_body. intros c q Hin.
+    pose proof (existsb_In_false _ _ _ c Hx Hin) as Hc. simpl in Hc.
+    apply orb_false_iff in Hc. destruct Hc as [Hc H3]. apply orb_false_iff in Hc. destruct Hc as [H1 H2].
+    apply askip_head; try assumption; discriminate. }
   assert (Hskip2 : forallb (askip [x; y] y []) (annotate_body [] root 0 m) = true).
   { apply forallb_annotate_body. intros c q Hin.
     pose proof (existsb_In_false _ _ _ c Hy Hin) as Hc. simpl in Hc. apply orb_false_iff in Hc. destruct Hc as [H1 H2].
-    apply askip_fall; try assumption.
-    apply not_func_no_posarg. apply (existsb_In_false _ _ _ c Hf Hin). }
+    apply askip_fall; assumption. }
   rewrite find_for_skip_all by exact Hskip1. unfold step_result at 1.
-  destruct (last_of_annotate_body [] root m 0 None) as [E|[c [q [Hin E]]]]; rewrite E.
+  rewrite last_of_annotate_body. unfold last_func_named in Hlast.
+  destruct (rev m) as [|c r] eqn:Erev.
   - subst cur. rewrite find_while_step_none. unfold annotate_at.
     rewrite find_for_skip_all by exact Hskip2. reflexivity.
   - subst cur. rewrite find_while_step_name.
     + unfold annotate_at. rewrite find_for_skip_all by exact Hskip2. reflexivity.
     + rewrite astmt_name_annotate.
+      assert (Hin : In c m). { apply in_rev. rewrite Erev. left. reflexivity. }
       pose proof (existsb_In_false _ _ _ c Hy Hin) as Hc. simpl in Hc. apply orb_false_iff in Hc. destruct Hc as [H1 H2].
-      pose proof (existsb_In_false _ _ _ c Hf Hin) as Hfc.
-      destruct c; simpl in *; try reflexivity; try discriminate. exact H2.
+      destruct c; simpl in *; try reflexivity; assumption.
+Qed.
+
+(* x.y.z where x is a function: a function has no members, and find_in_ast returns None as well *)
+Lemma c15_depth3_func_head : forall root m x y z pre n args body d r post,
+    supported m = true ->
+    split_member x m = Some (pre, SFunc n args body d r, post) ->
+    find_view_at root [x; y; z] m = Ok (resolve_at root [x; y; z] m).
+Proof.
+  intros root m x y z pre n args body d r post Hsup Hs.
+  destruct (split_member_some _ _ _ _ _ Hs) as [_ [Hmt _]]. apply func_member_name in Hmt. subst n.
+  pose proof (supported_func_kw _ _ _ _ _ (supported_split _ _ _ _ _ Hsup Hs)) as Hkw.
+  assert (Hlen : forall k : str, [x; y; z] <> [] ++ [k]) by (intros k; discriminate).
+  destruct (func_more_segments [x; y; z] [] (root ++ [0 + List.length pre]) x args body d r
+                               (annotate_body [] root (S (0 + List.length pre)) post) y z []
+                               (CList (annotate_at root m)) (last_of (annotate_body [] root 0 pre) None) [] 3 Hlen Hkw)
+    as [log' H1].
+  apply find_view_of_while with (r := None) (log := log').
+  - discriminate.
+  - simpl List.length. rewrite find_while_step_more.
+    set (cur := CList (annotate_at root m)) in *. unfold annotate_at.
+    rewrite (walk_to_member [x; y; z] x [y; z] [] root 0 m pre _ post cur None [] Hs Hlen) by discriminate.
+    exact H1.
+  - unfold resolve_at. rewrite resolve_body_split, Hs. reflexivity.
 Qed.
 
 Lemma c15_depth3 : forall root m x y z pre n bs body d post pre' n' args body' d' r' post',
-    split_member x m = Some (pre, SClass n bs body d, post) -> existsb is_func pre = false ->
-    split_member y body = Some (pre', SFunc n' args body' d' r', post') -> existsb is_func pre' = false ->
-    arg_lookup_class z args post' = None ->
+    supported m = true ->
+    split_member x m = Some (pre, SClass n bs body d, post) ->
+    split_member y body = Some (pre', SFunc n' args body' d' r', post') ->
     find_view_at root [x; y; z] m = Ok (resolve_at root [x; y; z] m).
 Proof.
-  intros root m x y z pre n bs body d post pre' n' args body' d' r' post' Hs Hf Hs' Hf' Ha.
+  intros root m x y z pre n bs body d post pre' n' args body' d' r' post' Hsup Hs Hs'.
   destruct (split_member_some _ _ _ _ _ Hs) as [_ [Hmt _]].
   apply class_member_name in Hmt. subst n.
+  destruct (split_member_some _ _ _ _ _ Hs') as [_ [Hmt' _]]. apply func_member_name in Hmt'. subst n'.
+  assert (Hkw : List.length (ar_kw_defaults args) = List.length (ar_kwonly args)).
+  { pose proof (supported_split _ _ _ _ _ Hsup Hs) as Hc. simpl in Hc.
+    exact (supported_func_kw _ _ _ _ _ (supported_split _ _ _ _ _ Hc Hs')). }
   assert (Hlen : forall k : str, [x; y; z] <> [] ++ [k]) by (intros k; discriminate).
   assert (Hlen' : forall k : str, [x; y; z] <> [x] ++ [k]) by (intros k; discriminate).
   set (p1 := root ++ [0 + List.length pre]).
-  destruct (func_last_segment [x; y; z] [x] p1 0 pre' n' args body' d' r' post' y z
+  destruct (func_last_segment [x; y; z] [x] (p1 ++ [0 + List.length pre']) y args body' d' r'
+                              (annotate_body [x] p1 (S (0 + List.length pre')) post') z
                               (CList (annotate_body [x] p1 0 body))
                               (last_of (annotate_body [x] p1 0 pre') (Some (annotate_stmt [] p1 (SClass x bs body d))))
-                              [] 1 Hlen' Ha)
+                              [] 2 Hlen' Hkw)
     as [res [log' [H1 H2]]].
   apply find_view_of_while with (r := res) (log := log').
   - discriminate.
   - simpl List.length. rewrite find_while_step_more.
     set (cur := CList (annotate_at root m)). unfold annotate_at.
-    rewrite (walk_to_member [x; y; z] x [y; z] [] root 0 m pre _ post cur None [] Hs Hlen) by (discriminate || assumption).
+    rewrite (walk_to_member [x; y; z] x [y; z] [] root 0 m pre _ post cur None [] Hs Hlen) by discriminate.
     fold p1. rewrite class_enter by exact Hlen. unfold step_result at 1.
     rewrite find_while_step_more.
-    rewrite (walk_to_member [x; y; z] y [z] [x] p1 0 body pre' _ post' _ _ [] Hs' Hlen') by (discriminate || assumption).
+    rewrite (walk_to_member [x; y; z] y [z] [x] p1 0 body pre' _ post' _ _ [] Hs' Hlen') by discriminate.
     exact H1.
   - rewrite H2. unfold resolve_at. rewrite resolve_body_split, Hs. fold p1.
     rewrite resolve_stmt_class, resolve_body_split, Hs'. reflexivity.
@@ -896,18 +905,18 @@ Qed.
 
 (* for every root the positions are counted from *)
 Theorem C15_partial_at : forall root m q,
-    finding_class_C15 m q = None -> find_view_at root q m = Ok (resolve_at root q m).
+    supported m = true -> finding_class_C15 m q = None ->
+    find_view_at root q m = Ok (resolve_at root q m).
 Proof.
-  intros root m q E.
+  intros root m q Hsup E.
   destruct q as [|x [|y [|z [|w q]]]]; simpl in E.
   - apply c15_depth0.
   - apply c15_depth1. assumption.
   - destruct (split_member x m) as [[[pre t] post]|] eqn:Hs.
     + destruct t.
-      * destruct (existsb is_func pre) eqn:Hf; [discriminate|]. eapply c15_depth2_func; eassumption.
-      * destruct (existsb is_func pre) eqn:Hf; [discriminate|].
-        destruct (str_eqb x y) eqn:Hxy; [discriminate|]. eapply c15_depth2_class; eassumption.
-      * destruct (existsb is_func pre); discriminate.
+      * eapply c15_depth2_func; eassumption.
+      * destruct (str_eqb x y) eqn:Hxy; [discriminate|]. eapply c15_depth2_class; eassumption.
+      * discriminate.
       * apply c15_depth2_unresolved; [assumption|]. unfold resolve_at. rewrite resolve_body_split, Hs. reflexivity.
       * apply c15_depth2_unresolved; [assumption|]. unfold resolve_at. rewrite resolve_body_split, Hs. reflexivity.
       * apply c15_depth2_unresolved; [assumption|]. unfold resolve_at. rewrite resolve_body_split, Hs. reflexivity.
@@ -915,17 +924,16 @@ Proof.
     + apply c15_depth2_unresolved; [assumption|]. unfold resolve_at. rewrite resolve_body_split, Hs. reflexivity.
   - destruct (split_member x m) as [[[pre t] post]|] eqn:Hs; [|discriminate].
     destruct t; try discriminate.
-    destruct (existsb is_func pre) eqn:Hf; [discriminate|].
-    destruct (split_member y body) as [[[pre' t'] post']|] eqn:Hs'; [|discriminate].
-    destruct t'; try discriminate.
-    destruct (existsb is_func pre') eqn:Hf'; [discriminate|].
-    eapply c15_depth3; eassumption.
+    + eapply c15_depth3_func_head; eassumption.
+    + destruct (split_member y body) as [[[pre' t'] post']|] eqn:Hs'; [|discriminate].
+      destruct t'; try discriminate.
+      eapply c15_depth3; eassumption.
   - discriminate.
 Qed.
 
 Theorem C15_partial_lemma : forall m q, guard_C15 m q = true -> C15_find_at m q.
 Proof.
-  intros m q H. unfold guard_C15 in H. apply andb_true_iff in H. destruct H as [_ H].
+  intros m q H. unfold guard_C15 in H. apply andb_true_iff in H. destruct H as [Hsup H].
   unfold C15_find_at, find_view, resolve.
-  destruct (finding_class_C15 m q) eqn:E; [discriminate|]. apply C15_partial_at. assumption.
+  destruct (finding_class_C15 m q) eqn:E; [discriminate|]. apply C15_partial_at; assumption.
 Qed.
